@@ -52,6 +52,39 @@ Definition dup_original_b (doc : list item) : bool :=
 Definition orphan_extension_b (doc : list item) : bool :=
   existsb (fun e => is_nil (defs_of (e_kind e) (e_name e) doc)) (all_exts doc).
 
+(** names used by items of kind [k] (definitions or extensions), in order of first occurrence *)
+Definition item_key (k : kind) (it : item) : option key :=
+  match it with
+  | IDef d => if kind_eqb (d_kind d) k then Some (d_name d) else None
+  | IExt e => if kind_eqb (e_kind e) k then Some (e_name e) else None
+  | IDir _ => None
+  end.
+
+Definition mem_key (n : key) (ks : list key) : bool := existsb (key_eqb n) ks.
+
+Definition add_key (o : option key) (ks : list key) : list key :=
+  match o with
+  | Some n => if mem_key n ks then ks else ks ++ [n]
+  | None => ks
+  end.
+
+Fixpoint keys_acc (k : kind) (doc : list item) (acc : list key) : list key :=
+  match doc with
+  | [] => acc
+  | it :: r => keys_acc k r (add_key (item_key k it) acc)
+  end.
+Definition keys (k : kind) (doc : list item) : list key := keys_acc k doc [].
+
+(** an extension of kind [k] whose name nobody of kind [k] defines *)
+Definition orphan_k (k : kind) (doc : list item) : Prop :=
+  exists n, In n (keys k doc) /\ defs_of k n doc = [].
+
+(** the first key (in first-occurrence order) without a definition yields the error *)
+Definition first_orphan (k : kind) (doc : list item) (e : ext) : Prop :=
+  exists pre n post rest,
+    keys k doc = pre ++ n :: post /\ (forall m, In m pre -> defs_of k m doc <> []) /\
+    defs_of k n doc = [] /\ exts_of k n doc = e :: rest.
+
 (** positions erased: what remains of a document when one forgets where (and in which file)
     each definition and extension was written *)
 Definition pos0 : pos := mkpos 0 0 0 false.
